@@ -492,7 +492,7 @@ func c5PreChecks(c *Ctx) {
 		hasField := false
 		if stt, ok := named.Underlying().(*types.Struct); ok {
 			for i := 0; i < stt.NumFields(); i++ {
-				hasField = hasField || stt.Field(i).Name() == tf[1]
+				hasField = hasField || FN(stt.Field(i)) == tf[1]
 			}
 		}
 		if n == 0 && !hasField {
